@@ -57,6 +57,19 @@ Plan gen_c06(uint64_t seed, int tier)
       }
       else if (c < 86)
       {
+        if (fo_info(fo).dropping && r.chance(1, 3))
+        {
+          // "the flush request is never discarded, even with a dropping queue": stall the backend, fill the queue (to its
+          // maximum for an unbounded one) until statements are dropped, then flush
+          FOInfo const fi = fo_info(fo);
+          ops.push_back(Op{OP_STALL, -1, 0, r.range(1, 10), r.pick<int64_t>({20000, 100000})});
+          int64_t const each = static_cast<int64_t>(fi.init_cap / 4);
+          int const nfill = static_cast<int>(fi.max_cap / static_cast<size_t>(each + 44)) + 3;
+          for (int k = 0; k < nfill; ++k)
+          {
+            ops.push_back(Op{OP_LOG, lg, 0, 4, static_cast<int64_t>(r.next() >> 8), each - r.range(0, 40), 0});
+          }
+        }
         ops.push_back(Op{OP_FLUSH, lg, r.pick<int64_t>({0, 100, 100, 1000})});
       }
       else if (c < 93)
